@@ -63,6 +63,39 @@ def call1(module, func, *args, **kwargs):
     return r
 
 
+_LOOKUP_CACHE = {}
+
+
+def real_lookup(module, name):
+    """the REAL module-level lookup object (dict of functions ...) described by run_real.py: functions become 'fn:<module>.<name>'"""
+    key = (module, name)
+    if key not in _LOOKUP_CACHE:
+        _LOOKUP_CACHE[key] = call_real([{'module': module, 'func': name, 'get_attr': True}])[0]
+    return _LOOKUP_CACHE[key]
+
+
+def lookup_replay(module, name, expect, note=''):
+    """expect(md) -> list of (path keys..., expected suffix or None for 'must exist'); reproduces iff the real object disagrees with any of them"""
+    def rp(md):
+        r = real_lookup(module, name)
+        if not r['ok']:
+            return True, 'real %s.%s not importable: %s' % (module, name, r.get('error'))
+        bad = []
+        for item in expect(md):
+            *path, want = item
+            cur = r['value']
+            try:
+                for k in path:
+                    cur = cur[str(k)]
+            except (KeyError, TypeError):
+                bad.append((path, 'missing'))
+                continue
+            if want is not None and not str(cur).endswith(want):
+                bad.append((path, cur))
+        return bool(bad), '%sreal %s.%s: %r' % (note + ': ' if note else '', module, name, bad[:4])
+    return rp
+
+
 def fn_replay(module, func, argspec, violated, note=''):
     """replay on the real (interpreted / numba) function: argspec is a list of model keys (str), (key, default) pairs, constants or callables md -> value;
     `violated(real_value, args)` returns True iff the claim is violated by the real value. A raising real call counts as reproduced."""
